@@ -105,7 +105,7 @@ class C05(Check):
     HEADER = "From Verif Require Import C04.Model C05.Model."
     RUN = "run_case5"
     CASE_TYPE = "case5"
-    N_QUICK = 24          # programs; each explored over many schedules
+    N_QUICK = 14          # programs; each explored over many schedules
     N_THOROUGH = 120
     extra_dirs = ("C04",)
     RULE = ("programs of 2-3 threads x 1-3 calls (consume in 3 currencies with/without debt, regenerate, "
@@ -228,7 +228,7 @@ class C05(Check):
 
     def gen_cases(self, rng, n):
         bound = 2 if self.tier == "quick" else 3
-        per = 60 if self.tier == "quick" else 250
+        per = 50 if self.tier == "quick" else 250
         out = []
         progs = list(self.CORPUS_PROGRAMS) + [self._rand_program(rng) for _ in range(n)]
         for p in progs:
